@@ -487,15 +487,18 @@ class ActionYesNo(Action):
             setattr(args[1], self.dest, value)
         return None
 
+    def _get_prefixed_option_strings(self, prefix):
+        option_strings = list(self.option_strings)
+        option_strings[0] = re.sub("^--" + self._yes_prefix, "--" + self._yes_prefix + prefix + ".", option_strings[0])
+        if self._no_prefix is not None:
+            option_strings[-1] = re.sub(
+                "^--" + self._no_prefix, "--" + self._no_prefix + prefix + ".", option_strings[-1]
+            )
+        return option_strings
+
     def _add_dest_prefix(self, prefix):
         self.dest = prefix + "." + self.dest
-        self.option_strings[0] = re.sub(
-            "^--" + self._yes_prefix, "--" + self._yes_prefix + prefix + ".", self.option_strings[0]
-        )
-        if self._no_prefix is not None:
-            self.option_strings[-1] = re.sub(
-                "^--" + self._no_prefix, "--" + self._no_prefix + prefix + ".", self.option_strings[-1]
-            )
+        self.option_strings = self._get_prefixed_option_strings(prefix)
 
     def _check_type(self, value):
         return ActionYesNo._boolean_type(value)
@@ -558,7 +561,12 @@ class ActionParser:
 
         option_string_actions = {}
         for key, action in filter_default_actions(subparser._option_string_actions).items():
-            option_string_actions[add_prefix(key)] = action
+            if isinstance(action, ActionYesNo):
+                # same strings that _add_dest_prefix gives to the action, e.g. --no_opt -> --no_prefix.opt
+                key = action._get_prefixed_option_strings(prefix)[action.option_strings.index(key)]
+            else:
+                key = add_prefix(key)
+            option_string_actions[key] = action
 
         isect = set(option_string_actions.keys()).intersection(set(parser._option_string_actions.keys()))
         if len(isect) > 0:
